@@ -288,7 +288,21 @@ func (this *partition) proposeAddNode(ctx context.Context, nodeId uint64) error 
 		return err
 	}
 
-	return this.raft.ProposeJoin(nodeId, "")
+	group := this.loadedRaft()
+	if group == nil {
+		return RaftNotLoadedOnNodeErr
+	}
+	return group.ProposeJoin(nodeId, "")
+}
+
+// The partition's raft group, nil unless this node hosts a replica. The
+// allocator also changes the replica set of partitions it does not host
+// (a partition without replicas is looked after by the first node).
+func (this *partition) loadedRaft() *raft.RaftGroup {
+	this.raftMu.RLock()
+	defer this.raftMu.RUnlock()
+
+	return this.raft
 }
 
 func (this *partition) addNode(nodeId uint64) {
@@ -304,7 +318,11 @@ func (this *partition) proposeRemoveNode(ctx context.Context, nodeId uint64) err
 		return err
 	}
 
-	return this.raft.ProposeLeave(nodeId)
+	group := this.loadedRaft()
+	if group == nil {
+		return RaftNotLoadedOnNodeErr
+	}
+	return group.ProposeLeave(nodeId)
 }
 
 func (this *partition) removeNode(nodeId uint64) {
